@@ -26,6 +26,11 @@ DRIVERS = [
     (r"wallet\.Wallet\)\.swapToSend$", r"callsite:slices\.Sort@sendfee", "wallet", WALLET_FILES, "TestVerifReplay_SendFeeEstimate", {"Amount": 3, "FeePpk": 1000}),
     (r"wallet\.Wallet\)\.getActiveKeyset$", r"post@past|inv-", "wallet", WALLET_FILES, "TestVerifReplay_FeeChangeRewindsCounter", None),
     (r"wallet\.Restore$", r"callsite:storage\.WalletDB\.IncrementKeysetCounter|shape:", "wallet", WALLET_FILES, "TestVerifReplay_RestoreCounter", None),
+    (r"nut20\.(VerifyMintQuoteSignature|SignMintQuote)$", r"post@|inv-|callsite:|shape:", "mint", MINT_FILES, "TestVerifReplay_Nut20LockedQuote", None),
+    (r"mint\.Mint\)\.MintTokens$", r"post@nut20|callsite:nut20", "mint", MINT_FILES, "TestVerifReplay_Nut20LockedQuote", None),
+    (r"mint\.Mint\)\.RequestMintQuote$", r"post@lockstored|post@nolock", "mint", MINT_FILES, "TestVerifReplay_Nut20LockedQuote", None),
+    (r"mint\.LoadMint$", r"callsite:|post@|inv-|shape:", "mint", MINT_FILES, "TestVerifReplay_RestartKeysets", None),
+    (r"mint\.Mint\)\.(Swap|MintTokens|MeltTokens|settleProofs|IssuedEcash|RedeemedEcash)$", r"post@totals|post@totalskept|post@noissue|post@notredeemed|post@store", "mint", MINT_FILES, "TestVerifReplay_TotalsFollowOperations", None),
     (r"wallet\.Wallet\)\.swapToTrusted$", r"callsite:wallet\.Wallet\.swapProofs@sigallpath|pre:wallet\.Wallet\.swapProofs", "wallet", WALLET_FILES, "TestVerifReplay_SwapToTrustedReusesCounters", None),
     (r"wallet\.Wallet\)\.(Receive|ReceiveHTLC|ReclaimUnspentProofs)$", r"post@past|callsite:storage\.WalletDB\.IncrementKeysetCounter@count", "wallet", WALLET_FILES, "TestVerifReplay_ReceiveAdvancesCounter", None),
     (r"wallet\.Wallet\)\.AddMint$", r"callsite:storage\.WalletDB\.SaveKeyset@keepscounter|post@samecounters|inv-", "wallet", WALLET_FILES, "TestVerifReplay_AddMintKeepsCounter", None),
